@@ -1,0 +1,12 @@
+//go:build verif
+
+package nexus
+
+import "context"
+
+// AllocateFromPoolForVerif exposes the hash-based central allocation (allocateFromPool) for the
+// verification harness: the address the client computes for subscriberID in a pool with the given CIDR.
+func AllocateFromPoolForVerif(cidr, subscriberID string) (string, error) {
+	c := &Client{}
+	return c.allocateFromPool(context.Background(), &IPPool{ID: "verif", CIDR: cidr}, subscriberID)
+}
